@@ -98,7 +98,7 @@ static inline bool substitute_element(Rep& R, std::vector<uint8_t>& buf, size_t 
         if (seed & 1) cofactor_part(R, g, a);   // every other time the point lies entirely in the cofactor part: T = [r]Q (its order divides the cofactor)
         e = model_encode(mpoint_of_affine(R, g, a), comp); }
     else if (kind == "xnoy") { if (!comp) return false; std::vector<uint8_t> xb; Buf a; if (!rand_curve_point(true, xb, a)) return false; e = xb; e[0] |= FL_COMPRESSED; }
-    else if (kind == "badinf") { std::fill(e.begin(), e.end(), 0); e[0] = FL_INFINITY | (comp ? FL_COMPRESSED : 0); int v = (int) (seed % 5); if (v == 0) e[n - 1] = 1; else if (v == 1) e[0] |= FL_GREATER; else if (v == 2) e[n / 2] = 0x10; else { uint8_t qb[48]; K().q.to_be(qb, 48); size_t ns = n / 48; for (size_t sl = (v == 3 ? ns - 1 : 0); sl < ns; sl++) for (size_t i = 0; i < 48; i++) e[sl * 48 + i] |= qb[i]; } }
+    else if (kind == "badinf") { std::fill(e.begin(), e.end(), 0); e[0] = FL_INFINITY | (comp ? FL_COMPRESSED : 0); int v = (int) (seed % 6); if (v == 5) e[0] = (uint8_t) (FL_INFINITY | (comp ? 0 : FL_COMPRESSED)); /* the identity, all payload bits zero, announced in the other form */ else if (v == 0) e[n - 1] = 1; else if (v == 1) e[0] |= FL_GREATER; else if (v == 2) e[n / 2] = 0x10; else { uint8_t qb[48]; K().q.to_be(qb, 48); size_t ns = n / 48; for (size_t sl = (v == 3 ? ns - 1 : 0); sl < ns; sl++) for (size_t i = 0; i < 48; i++) e[sl * 48 + i] |= qb[i]; } }
     else if (kind == "inftail") { e[0] |= FL_INFINITY; }
     else if (kind == "zero") { std::fill(e.begin(), e.end(), 0); if (false) {} }
     else if (kind == "ff") std::fill(e.begin(), e.end(), 0xFF);
